@@ -64,6 +64,9 @@ type Iface struct {
 	// InstOf, when set, declares `type Name = / Name InstOf` (a named instantiation of a
 	// generic interface) instead of an interface literal.
 	InstOf *Ty `json:"inst_of,omitempty"`
+	// Alias (with InstOf): declared as an alias, `type Name = InstOf`. An alias declares no new
+	// type: mocking it is don't-care, mocking its target twice is not.
+	Alias bool `json:"alias,omitempty"`
 	File   int `json:"file,omitempty"` // index of the source file of the package it is declared in
 }
 
